@@ -121,7 +121,9 @@ func (dsc *dataStoreCommand) acquireExclusive() {
 
 func (dsc *dataStoreCommand) releaseExclusive() {
 	// release the multi-lock; subsequent commands are all blocked on dsc.ds.mu
-	atomic.StoreUint32(&dsc.ds.multiLock, dsc.id)
+	// (store 0, not our id: command ids repeat, and a later command with the
+	// same id must not be mistaken for the owner)
+	atomic.StoreUint32(&dsc.ds.multiLock, 0)
 	// release and let the next subsequent command execute (if any)
 	dsc.ds.mu.Unlock()
 }
